@@ -79,6 +79,7 @@ type Machine struct {
 	nondetN  map[string]int
 	NondetV  []*Term // nondet variables in creation order
 	panicFrs []*frame
+	looseFmt int
 
 	// results of this path
 	Res *PathResult
